@@ -45,6 +45,9 @@ impl TranspositionTable {
     }
 
     pub fn record(&mut self, hash: u64, score: i32, depth: u8, flag: HashFlag, ply: u8) {
+        #[cfg(jence_verif)]
+        crate::verif::on_tt_record(hash, score, depth, flag as u8, ply);
+
         //Adjust mating scores before insertion
         let mut adjusted_score: i32 = score;
         if score < -MATE_BOUND {
@@ -57,6 +60,8 @@ impl TranspositionTable {
     }
 
     pub fn probe(&mut self, p_hash: u64, p_depth: u8, p_alpha: i32, p_beta: i32, ply: u8) -> i32 {
+        #[cfg(jence_verif)]
+        if crate::verif::tt_bypass() { return UNKNOWN_SCORE; }
 
         let entry = &self.table[(p_hash % TT_SIZE as u64) as usize];
 
